@@ -123,6 +123,11 @@ RIGHT_OVERRIDE = {
     'properties': [N, T('dict', {}), T('dict', {'content_type': 'text/plain'}), T('odict', [['priority', 1]]),
                    T('dictsub', {'app_id': 'x'})],
     'hostname': [T('str', 'localhost'), T('str', 'rmq.example'), T('bytes', '6c6f63616c'), T('strsub', 'h')],
+    # integers over the whole range of the AMQP field that carries them (unsigned long / short / long long)
+    'prefetch_size': [T('int', 0), T('int', 1), T('int', 65536), T('int', 2 ** 31 - 1), T('int', 2 ** 31), T('int', 2 ** 32 - 1), T('bool', True)],
+    'prefetch_count': [T('int', 0), T('int', 1), T('int', 255), T('int', 256), T('int', 65535), T('bool', False)],
+    'delivery_tag': [T('int', 0), T('int', 1), T('int', 2 ** 31), T('int', 2 ** 32), T('int', 2 ** 63 - 1)],
+    'reply_code': [T('int', 0), T('int', 200), T('int', 320), T('int', 541), T('int', 65535)],
 }
 # two distinct well-typed values per documented type (the behavioural "is it transmitted?" probe)
 PROBE = {
